@@ -36,7 +36,7 @@ func c18(tier string) []*explore.Scenario {
 	for _, newKey := range []bool{true, false} {
 		out = append(out, c18StopRace(newKey, bound+1))
 	}
-	out = append(out, c18WriteFault(bound))
+	out = append(out, c18WriteFault(bound), c18StatefulKey(bound))
 	seqLen := 5
 	if tier == "thorough" {
 		seqLen = 7
@@ -600,6 +600,66 @@ func c18WriteFault(bound int) *explore.Scenario {
 			e.shared.A.Break()
 			e.shared.B.Break()
 			vsched.Quiesce()
+		},
+	}
+}
+
+// c18StatefulKey: the caller's key function is not a pure function of the
+// envelope - it spreads one peer's envelopes round-robin over two keys (a
+// sharding policy). The demux asks it once per envelope; two connections are
+// announced, each exactly once, and each receives its alternate envelopes in order.
+func c18StatefulKey(bound int) *explore.Scenario {
+	fam := "C18/key-function"
+	return &explore.Scenario{
+		Name: "C18/key-function/round-robin", Family: fam, Prop: "C18", Bound: bound,
+		Run: func() {
+			tap := &env.Tap{}
+			shared := env.NewPipe(tap, env.PipeOpts{Name: "shared", Cap: 64})
+			calls := 0
+			var conns []goat.RpcReadWriter
+			got := map[int][]uint64{}
+			ctx, cancel := context.WithCancel(context.Background())
+			defer cancel()
+			var dm *goat.Demux
+			dm = goat.NewDemux(ctx, shared.B, func(r *env.Rpc) string {
+				calls++
+				return fmt.Sprintf("shard%d", calls%2)
+			}, func(rw goat.RpcReadWriter) {
+				idx := len(conns)
+				conns = append(conns, rw)
+				for {
+					r, err := rw.Read(context.Background())
+					if err != nil {
+						return
+					}
+					got[idx] = append(got[idx], r.Id)
+				}
+			})
+			runDone := false
+			vsched.GoNamed("demux-run", func() { dm.Run(); runDone = true })
+			vsched.Settle()
+			vsched.Explore(true)
+			const n = 6
+			for i := 1; i <= n; i++ {
+				shared.A.Inject(c18Msg(uint64(i), "peer"))
+			}
+			vsched.Quiesce()
+			vsched.Obs("key function calls=%d connections=%d got=%v", calls, len(conns), got)
+			if calls != n {
+				vsched.Fail(fam+"|key-function-calls", "%d envelopes arrived; the key function was asked %d times (it decides per envelope, once)", n, calls)
+			}
+			if len(conns) != 2 {
+				vsched.Fail(fam+"|announce-count", "two keys are in use; %d connections were announced", len(conns))
+			} else if fmt.Sprint(got[0]) != "[1 3 5]" || fmt.Sprint(got[1]) != "[2 4 6]" {
+				vsched.Fail(fam+"|delivery", "envelopes 1..6 alternate between two keys: the connections received %v and %v", got[0], got[1])
+			}
+			dm.Stop()
+			shared.A.Break()
+			shared.B.Break()
+			vsched.Quiesce()
+			if !runDone {
+				vsched.Fail(fam+"|run-hang", "Run did not return after Stop")
+			}
 		},
 	}
 }
